@@ -5,11 +5,11 @@ From RopeVerif.C13 Require Import Observer PathProofs ObserverProofs.
 
 (* ================================================================================ witnesses *)
 (* the tree as found: automatic_soa on, neither fix *)
-Definition cfg0 : config := Config true false false.
-Definition cfg_fixed : config := Config true true true.
+Definition cfg0 : config := Config true false false true.
+Definition cfg_fixed : config := Config true true true true.
 
 Definition wit_disk : gmap (list N) node :=
-  list_to_map [([4%N], Dir); ([4%N; 9%N], File (Content 1 true [])); ([1%N], File (Content 2 true [2%N]))].
+  list_to_map [([4%N], Dir 0); ([4%N; 9%N], File (Content 1 true [] 6) 0); ([1%N], File (Content 2 true [2%N] 11) 0)].
 (* zm0.py ("import zm2") has been asked what zm2 is: zm1/zm2.py *)
 Definition wit_warm : state := (run_query (init wit_disk cfg0) (QResolve [1%N] 2%N)).1.
 (* now zm2.py is created at the root through rope *)
@@ -41,7 +41,7 @@ Qed.
    from the cache, still watched), removed (watch entry stays with indicator None); zm0/zm2.py cached *)
 Definition wit2_ops : list op :=
   [ORope (XCreate [0%N] true); ORope (XCreate [0%N; 5%N] false);
-   ORope (XWrite [0%N; 5%N] (Content 1 true [])); ORope (XWrite [0%N; 5%N] (Content 2 false []));
+   ORope (XWrite [0%N; 5%N] (Content 1 true [] 6) false); ORope (XWrite [0%N; 5%N] (Content 2 false [] 7) false);
    ORope (XRemove [0%N; 5%N]); ORope (XCreate [0%N; 9%N] false); OQuery (QLoad [0%N; 9%N])].
 Definition wit2_state : state := run (init ∅ cfg0) wit2_ops.
 Definition wit2_op : op := ORope (XMove [0%N] [12%N]).
@@ -62,10 +62,13 @@ Qed.
    list, a resolved import, an external batch and a folder move, inside the domain of every theorem *)
 Definition ex_ops : list op :=
   [ORope (XCreate [4%N] true); ORope (XCreate [4%N; 3%N] false); ORope (XCreate [4%N; 9%N] false);
-   ORope (XWrite [4%N; 9%N] (Content 1 true [])); ORope (XCreate [1%N] false);
-   ORope (XWrite [1%N] (Content 2 true [1%N])); OQuery (QResolve [1%N] 1%N); OQuery (QChildren [4%N]);
+   ORope (XWrite [4%N; 9%N] (Content 1 true [] 6) false); ORope (XCreate [1%N] false);
+   ORope (XWrite [1%N] (Content 2 true [1%N] 7) false); OQuery (QResolve [1%N] 1%N); OQuery (QChildren [4%N]);
    OQuery QFiles;
-   OExternal [XWrite [4%N; 9%N] (Content 3 true [2%N]); XCreate [4%N; 13%N] false];
+   OExternal [] [XWrite [4%N; 9%N] (Content 3 true [2%N] 8) false; XCreate [4%N; 13%N] false];
+   OQuery (QLoad [4%N; 9%N]);
+   (* a rewrite that keeps the modification time (the size differs), then validate of the sub-folder only *)
+   OExternal [4%N] [XWrite [4%N; 9%N] (Content 4 true [2%N] 11) true];
    OQuery (QResolve [1%N] 1%N); ORope (XMove [4%N] [8%N]); OQuery (QLoad [8%N; 9%N])].
 
 Lemma example_history :
@@ -88,4 +91,50 @@ Lemma fixed_witnesses :
 Proof.
   split; [apply (bool_decide_unpack _); by vm_compute|]. split; [by vm_compute|].
   split; [by vm_compute|]. apply (bool_decide_unpack _); by vm_compute.
+Qed.
+
+(* ------------------------------------------------------------ why the indicator is a pair *)
+(* zm0.py is cached; it is rewritten behind rope's back with the modification time kept and a different
+   size (cp -p, rsync -t, two writes within one timestamp tick) *)
+Definition wit3_disk : gmap (list N) node := list_to_map [([1%N], File (Content 1 true [] 6) 5)].
+Definition wit3_xs : list xop := [XWrite [1%N] (Content 2 true [] 9) true].
+Definition wit3 (full : bool) : state :=
+  (run_query (init_at wit3_disk (Config true true true full) 6) (QLoad [1%N])).1.
+
+(* with the indicator "modification time only" (seeded mutation C13-1) validate leaves the stale module
+   cached although the modification changed a component of the (mtime, size) pair *)
+Lemma mtime_only_indicator_refuted :
+  exists s xs, ind_size (cfg s) = false /\ Coherent s /\ forallb (xunder []) xs = true
+               /\ pair_sound s (foldl xstep s xs)
+               /\ ~ CacheCoherent (validate (foldl xstep s xs))
+               /\ (run_query (validate (foldl xstep s xs)) (QLoad [1%N])).2
+                  <> (run_query (fresh (validate (foldl xstep s xs))) (QLoad [1%N])).2.
+Proof.
+  exists (wit3 false), wit3_xs.
+  split; [by vm_compute|]. split; [apply (bool_decide_unpack _); by vm_compute|]. split; [by vm_compute|].
+  split; [apply (bool_decide_unpack _); by vm_compute|].
+  split; [apply (bool_decide_eq_false_1 (CacheCoherent _)); by vm_compute|].
+  apply (bool_decide_eq_false_1 (_ = _)). by vm_compute.
+Qed.
+
+(* with the pair the same batch is visible ([ind_sound] holds) and validate drops the stale module *)
+Lemma pair_indicator_example :
+  Coherent (wit3 true) /\ ext_ok (wit3 true) (OExternal [] wit3_xs)
+  /\ Coherent (step (wit3 true) (OExternal [] wit3_xs))
+  /\ mods (step (wit3 true) (OExternal [] wit3_xs)) = ∅.
+Proof.
+  split; [apply (bool_decide_unpack _); by vm_compute|]. split; [apply (bool_decide_unpack _); by vm_compute|].
+  split; [apply (bool_decide_unpack _); by vm_compute|]. by vm_compute.
+Qed.
+
+(* [ind_sound] cannot be dropped: a rewrite that keeps both the modification time and the size is
+   invisible to validate (rope's design; outside the property's domain) *)
+Lemma validate_needs_indicator_sound_refuted :
+  exists s xs, Coherent s /\ forallb (xunder []) xs = true /\ ~ ind_sound s (foldl xstep s xs)
+               /\ ~ CacheCoherent (validate (foldl xstep s xs)).
+Proof.
+  exists (wit3 true), [XWrite [1%N] (Content 2 true [] 6) true].
+  split; [apply (bool_decide_unpack _); by vm_compute|]. split; [by vm_compute|].
+  split; [apply (bool_decide_eq_false_1 (ind_sound _ _)); by vm_compute|].
+  apply (bool_decide_eq_false_1 (CacheCoherent _)). by vm_compute.
 Qed.
